@@ -184,3 +184,37 @@ def real_patterns():
     ch = Channel(transport=t, base_channel_args=BaseChannelArgs())
     return {"login": ch.auth_telnet_login_pattern, "password": ch.auth_password_pattern,
             "prompt": ch._get_prompt_pattern(class_pattern=ch._base_channel_args.comms_prompt_pattern)}
+
+
+# ---------------------------------------------------------------- in-channel ssh authentication (public twin methods of the
+# channel pair; no asyncio DRIVER ever calls the async one — compared directly at channel level)
+def run_ssh_sync(tape, password, passphrase):
+    from scrapli.channel import Channel
+    from scrapli.channel.base_channel import BaseChannelArgs
+    from scrapli.transport.base import Transport
+    clock = Clock()
+    t = _mk_transport(Transport, tape, clock, False)
+    with patched(clock):
+        ch = Channel(transport=t, base_channel_args=BaseChannelArgs(timeout_ops=1000.0))
+        out = _outcome(lambda: ch.channel_authenticate_ssh(auth_password=password, auth_private_key_passphrase=passphrase))
+    return out, t.writes
+
+
+async def run_ssh_async(tape, password, passphrase):
+    from scrapli.channel import AsyncChannel
+    from scrapli.channel.base_channel import BaseChannelArgs
+    from scrapli.transport.base import AsyncTransport
+    clock = Clock()
+    t = _mk_transport(AsyncTransport, tape, clock, True)
+    with patched(clock):
+        ch = AsyncChannel(transport=t, base_channel_args=BaseChannelArgs(timeout_ops=1000.0))
+        try:
+            await ch.channel_authenticate_ssh(auth_password=password, auth_private_key_passphrase=passphrase)
+            out = "done"
+        except SimStall:
+            out = "pending"
+        except ScrapliAuthenticationFailed:
+            out = "authFailed"
+        except ScrapliConnectionError:
+            out = "connError"
+    return out, t.writes
